@@ -3,7 +3,7 @@ from .. import cg, ex, lib
 from ..core import where
 from ..ir import AnalysisBroken
 
-UNITS = ['src/smpi/mpi/smpi_datatype.cpp']
+UNITS = ['src/smpi/mpi/smpi_datatype.cpp', 'src/smpi/mpi/smpi_datatype_derived.cpp']
 D = 'simgrid::smpi::Datatype'
 EXPLANATION = ('For Datatype::create_{indexed,hindexed,struct}: every update of the lb / ub accumulator is an extremum idiom `if (e < lb) lb = e` / '
                '`if (e > ub) ub = e` whose stored value is the compared value (so the bound kept is the min / max over the blocks of exactly the '
@@ -137,4 +137,48 @@ def run(ctx):
             # no construction before the test on a path that constructs
         ctx.check(bool(ok) and n >= 1, 'R2', '%s rejects a negative block length' % name, where(f), '%d path(s) through the test' % n, key='R2|%s|negative length' % name)
     ctx.assume('the extent/lb/ub formulas themselves (what quantity is compared) and the serialisation of the derived types are not decided')
+    # ---- R4 packed bytes are counted in sizes, positions in the user buffer in extents ----------------------------------------------------------
+    ctx.rule('R4', 'derived types: the packed cursor advances by multiples of size(), the cursor in the user buffer by byte strides/displacements or multiples of get_extent(); element strides and indices become bytes through get_extent()', 12)
+    n4 = 0
+    for f in sorted(P.fns.values(), key=lambda f_: f_['key']):
+        q = f['q']
+        if not (q.startswith('simgrid::smpi::Type_') and q.rsplit('::', 1)[-1] in ('serialize', 'unserialize') and f.get('blocks')):
+            continue
+        v = A.view(f)
+        evs = [e for eid in range(len(f['elems'])) for e in v.events_of(eid) if e.eid == eid]
+        role = {}
+        for e in evs:
+            if e.kind == 'assign' and e.decl and e.lhs[0] == 'var':
+                src = [t for t in ex.subterms(e.rhs) if t[0] == 'var' and t[1] == 'parm']
+                if src:
+                    role[e.lhs] = 'user' if src[0][2].startswith('noncontiguous') else ('packed' if src[0][2].startswith('contiguous') else None)
+                else:
+                    loc = [t for t in ex.subterms(e.rhs) if t[0] == 'var' and t in role]
+                    if loc:
+                        role[e.lhs] = role[loc[0]]
+        for e in evs:
+            if e.kind == 'assign' and e.op == '+=' and role.get(e.lhs) in ('user', 'packed'):
+                calls = [t[1].rsplit('::', 1)[-1] for t in ex.subterms(e.rhs) if t[0] == 'call']
+                n4 += 1
+                short = q.replace('simgrid::smpi::', '')
+                if role[e.lhs] == 'packed':
+                    ok = 'size' in calls and 'get_extent' not in calls
+                    why = 'the packed buffer holds size() bytes per element'
+                else:
+                    ok = 'size' not in calls
+                    why = 'consecutive elements in the user buffer are get_extent() apart, not size() (they differ for types with holes or resized types)'
+                ctx.check(ok, 'R4', '%s: %s += %s' % (short, e.lhs[2], ex.pretty(e.rhs)[:70]), where(f, e.line), '' if ok else why, key='R4|%s|%s cursor line-order %d' % (short, role[e.lhs], sum(1 for x in evs if x.kind == 'assign' and x.op == '+=' and x.lhs == e.lhs and x.line <= e.line)))
+    for cls, want in (('Type_Vector', 'get_extent'), ('Type_Indexed', 'get_extent')):
+        cs = [f for f in P.fns.values() if f['q'] == 'simgrid::smpi::%s::%s' % (cls, cls) and f.get('blocks')]
+        for f in cs:
+            v = A.view(f)
+            base = [e for eid in range(len(f['elems'])) for e in v.events_of(eid) if e.eid == eid and e.kind == 'call' and e.q.endswith('Type_H%s::Type_H%s' % (cls[5:].lower(), cls[5:].lower()))]
+            if not base:
+                continue
+            args = repr(base[0].args)
+            okc = 'get_extent' in args and not any(t[0] == 'call' and t[1].endswith('Datatype::size') for a_ in base[0].args for t in ex.subterms(a_))
+            n4 += 1
+            ctx.check(okc, 'R4', '%s: element strides / indices are converted to bytes with old_type->get_extent()' % cls, where(f, base[0].line),
+                      '' if okc else 'the conversion uses size(): wrong as soon as the element type has holes or was resized', key='R4|%s|bytes per element' % cls)
+    ctx.require(n4 >= 12, 'R4', 'only %d cursor updates / conversions found' % n4)
     return EXPLANATION
